@@ -112,3 +112,38 @@ func VerifParseParamRoute(path string) (first, start, spath, regex string, match
 	start, spath, regex, matches = rt.VerifRouteInfo()
 	return
 }
+
+// VerifCombineHandlers merges chains of n1 and n2 marker handlers with combineHandlers and reports which markers the
+// result holds, in order (found by running every handler of the result).
+func VerifCombineHandlers(n1, n2 int) (order []int) {
+	mk := func(from, n int) HandlersChain {
+		hs := make(HandlersChain, 0, n+2) // spare capacity: an append-based merge would write into it
+		for i := 0; i < n; i++ {
+			id := from + i
+			hs = append(hs, func(c *Context) { order = append(order, id) })
+		}
+		return hs
+	}
+	merged := combineHandlers(mk(0, n1), mk(n1, n2))
+	for _, h := range merged {
+		h(nil)
+	}
+	return order
+}
+
+// VerifParamsClone returns p.clone().
+func VerifParamsClone(p Params) Params { return p.clone() }
+
+// VerifCopyWithParams returns r.copyWithParams(ps), the copy the route cache stores.
+func (r *Route) VerifCopyWithParams(ps Params) *Route { return r.copyWithParams(ps) }
+
+// VerifConfig returns the option fields of the router, the lengths of its fallback chains and the capacity of its
+// route cache (-1: no cache container).
+func (r *Router) VerifConfig() (strict, fallback, notAllowed, caching, encoded bool, intercept string, maxCaches, cacheCap, noRoute, noAllowed, global int) {
+	cacheCap = -1
+	if r.cachedRoutes != nil {
+		cacheCap = r.cachedRoutes.size
+	}
+	return r.strictLastSlash, r.handleFallbackRoute, r.handleMethodNotAllowed, r.enableCaching, r.useEncodedPath,
+		r.interceptAll, int(r.maxNumCaches), cacheCap, len(r.noRoute), len(r.noAllowed), len(r.handlers)
+}
